@@ -14,7 +14,9 @@ package main
 //	         the event is re-built from #enc alone; raw/esc/topic/alt are the oracle values the
 //	         model uses (filled in by the generator from insane-json, hypotheses checked every run)
 //	  cfg  es: (#op #index_format (#value ...) #time split)  file: ()  http: (raw split)
-//	       kafka: (#default_topic use_topic_field batch_size)  splunk: ()  gelf: ()
+//	       kafka: (#default_topic use_topic_field batch_size)  gelf: ()
+//	       splunk: (entry ...) the copy_fields option, entry = (#from #to (#from_segment ...) ((#to_segment #literal) ...));
+//	       a splunk ev has a seventh element (copy ...), copy = 0 | oval: the values of its source fields (splunkcopy.go)
 //	       loki: (#labels_json)   ev for loki: raw = (#ts_json #msg_json), topic = #626164 when the timestamp is
 //	       rejected, alt = the rest of the event as encoding/json writes it (see loki.go)
 //	  obs  = (attempt ...)   attempt = (0 ((#body status) ...) ret) | (2)   [panic ends the case]
@@ -288,7 +290,8 @@ func getSink(which int, cfg hx.Sx) *sink {
 		wd := pipeline.WorkerData(nil)
 		s = &sink{out: func(b *pipeline.Batch) error { return p.VerifOut(&wd, b) }, stop: func() {}}
 	case 4:
-		c := &splunkout.Config{Endpoint: server(), Token: "tok", UseGzip: rw.gzip, GzipCompressionLevel: gzLevel, BatchSize: bs, WorkersCount: "1"}
+		c := &splunkout.Config{Endpoint: server(), Token: "tok", UseGzip: rw.gzip, GzipCompressionLevel: gzLevel, BatchSize: bs, WorkersCount: "1",
+			CopyFields: splunkCopyFields(cfg)}
 		test.NewConfig(c, map[string]int{"gomaxprocs": 1, "capacity": 64})
 		p := &splunkout.Plugin{}
 		p.Start(c, params(name, rw.avg))
@@ -443,6 +446,9 @@ func c19Exec(which int, cs hx.Sx) hx.Sx {
 	kind, _, fresh, dig := splitWhich(which)
 	if kind == 6 && lokiMayRetry(it[2]) && !lokiNothingToStrip(it[1]) && os.Getenv(lokiChildEnv) == "" {
 		return lokiInChild(which, cs)
+	}
+	if inChildVariant(which) && os.Getenv(lokiChildEnv) == "" {
+		return lokiInChild(which, cs) // splunk-copy-alias: out() may never return (splunkcopy.go)
 	}
 	snk := getSink(which, it[0])
 	if fresh {
@@ -1066,6 +1072,10 @@ func c19Gen(c *hmain.Ctx) {
 	}
 
 	glap("gelf")
+	// ---- 7b'. splunk copy_fields (envelope per event) and heterogeneous batches for every sink (splunkcopy.go)
+	g.splunkCopyStreams()
+	g.heteroStreams(allSinks, names)
+
 	// ---- 7c..: streams that cross the buffer / table / status thresholds (thresholds.go)
 	g.thresholdStreams(allSinks, names, es3.sx(), es3.vals)
 
@@ -1168,6 +1178,6 @@ func main() {
 		}
 	}()
 	hmain.Run(&hmain.Prop{ID: "C19",
-		Rule: "exhaustive: every batch of <= 3 events over 5 event shapes x {regular, parent} (+child) for 11 sink configurations; every 200/413/500 script of length <= 4 on batches of <= 4 events for ES/http split; every kind vector <= 5 for ForEach; every string <= 5 (6) over a JSON alphabet for the recogniser. Random: 1-4 successive batches of 0-16 random events (adversarial strings, non-string values) with random scripts, retries, 413-heavy splits. Threshold streams (thresholds.go): rows-* small AvgEventSize x batch_size rows incl. gzip / two endpoints on persistent instances, bigsmall-* payloads above and below the row's outBuf threshold alternating on one fresh instance (also the 65536-byte production row), bigbatch-* 17-40 events, status-edge-* 199..300, gelf-time values around 1e9 / 1e12, gelf-wide / wide-* 15-40 field roots with Dig before out(), rotate-file seal-up between writes, exhaustive-/random-/status-edge-loki through the plugin's own batcher. Non-trivial = at least 2 events and one deliverable (sinks), >= 2 symbols (recogniser); distinct = distinct (sub-model, case) text.",
+		Rule: "exhaustive: every batch of <= 3 events over 5 event shapes x {regular, parent} (+child) for 11 sink configurations; every 200/413/500 script of length <= 4 on batches of <= 4 events for ES/http split; every kind vector <= 5 for ForEach; every string <= 5 (6) over a JSON alphabet for the recogniser. Random: 1-4 successive batches of 0-16 random events (adversarial strings, non-string values) with random scripts, retries, 413-heavy splits. Threshold streams (thresholds.go): rows-* small AvgEventSize x batch_size rows incl. gzip / two endpoints on persistent instances, bigsmall-* payloads above and below the row's outBuf threshold alternating on one fresh instance (also the 65536-byte production row), bigbatch-* 17-40 events, status-edge-* 199..300, gelf-time values around 1e9 / 1e12, gelf-wide / wide-* 15-40 field roots with Dig before out(), rotate-file seal-up between writes, exhaustive-/random-/status-edge-loki through the plugin's own batcher. Splunk copy_fields (splunkcopy.go): exhaustive-splunk-copy every batch of <= 3 events over 6 shapes differing in which source fields they carry (+2 parents) x 8 configurations (nested / colliding / dropped targets, whole event), random-splunk-copy 18 configurations per run x 1-3 batches of 0-8 events with source fields present with probability 1/2 and of every JSON type x answers incl. retries, leak-splunk-copy carrier / bare alternation; hetero-<sink> full / bare / partial events alternating for every sink. Non-trivial = at least 2 events and one deliverable (sinks), >= 2 symbols (recogniser); distinct = distinct (sub-model, case) text.",
 		Gen:  c19Gen, Exec: c19Exec})
 }
